@@ -45,7 +45,7 @@ EpochForBlock(sched, n) ==
 
 Admit(b, sched) ==
     IF b.kind = "pre" THEN b.n < G /\ b.ok
-    ELSE b.e \in DOMAIN sched /\ b.c = Committee(b.e) /\ b.ok
+    ELSE b.e \in DOMAIN sched /\ b.c = Committee(EpochOf(sched[b.e].act)) /\ b.ok    \* the schedule STORED under the claimed epoch number
 
 (* One iteration of the schedule loop. `last` = manager.head() = number of the last durable block. *)
 (* `pend` = activation block of the pending schedule reported by the execution layer at `last`.    *)
@@ -126,8 +126,11 @@ OnlyLastOpen == \A e \in Known : (sched[e].exp = NoExp) <=> (e = Max(Known))
 RightCommittee == \A n \in DOMAIN chain : chain[n].c = Committee(EpochOf(n)) /\ chain[n].e = EpochOf(n)
 (* the numbering of the manager loop agrees with the execution layer's *)
 NumberingOK == \A e \in Known : sched[e].act = Act(e)
-(* BFT instances: only for known epochs that have started; the instance in charge of the next block is never a pruned one *)
-BftKnown == \A e \in running : e \in Known
+(* an epoch is dropped from the node's knowledge only when it is over: its expiration block is durable, so its BFT instance *)
+(* has terminated (bft/src/lib.rs:57-69) and no block of it remains to be verified - except by a restart, which rebuilds     *)
+(* everything from the durable head                                                                                          *)
+PrunedOnlyFinished ==
+    [][running' = {} \/ \A e \in (DOMAIN sched) \ (DOMAIN sched') : sched[e].exp # NoExp /\ last >= sched[e].exp]_vars
 (* progress of knowledge: the epoch of the next block eventually becomes known (it may lag behind a fast sync) *)
 NextKnown == (last + 1 <= MaxBlock) ~> (EpochOf(last + 1) \in Known \/ last + 1 > MaxBlock)
 =============================================================================
